@@ -362,6 +362,19 @@ Section Check.
     rewrite app_length, Hcl, Nat.add_sub, firstn_app_exact, skipn_app_exact, bytes_eqb_refl. reflexivity.
   Qed.
 
+  (* every payload at all -- empty, or starting with zero bytes -- as long as payload ++ checksum is not all zero *)
+  Theorem b58check_roundtrip_general p : (exists c, In c (p ++ checksum dsha p) /\ c <> x00) ->
+    (4 <= length (dsha p))%nat ->
+    exists t, b58_encode_check dsha p = Ok t /\ b58_decode_check dsha t = Ok p.
+  Proof.
+    intros Hnz Hlen. unfold b58_encode_check, b58_decode_check.
+    destruct (b58_roundtrip (p ++ checksum dsha p) Hnz) as [t [He Hd]].
+    exists t. split; [exact He|]. rewrite Hd. cbn [bind].
+    assert (Hcl : length (checksum dsha p) = 4%nat).
+    { unfold checksum. rewrite firstn_length. lia. }
+    rewrite app_length, Hcl, Nat.add_sub, firstn_app_exact, skipn_app_exact, bytes_eqb_refl. reflexivity.
+  Qed.
+
   (* accepted => the decoded bytes are payload ++ its own 4-byte checksum *)
   Theorem b58check_accepts_only_matching t p : b58_decode_check dsha t = Ok p ->
     b58_decode t = Ok (p ++ checksum dsha p).
